@@ -1576,6 +1576,9 @@ PyObject* Records::Write(PyObject* obj)
 	if (!PyArray_Check(obj)) {
 		throw std::runtime_error("Input must be a NumPy array object");
 	}
+	// rows already in the file as this object knows it (the count it was
+	// opened with plus what it wrote); mNrows is the loop bound of the writers
+	long long nrows_before = mNrows;
 	mNrows = PyArray_Size(obj);
 
 	PyArray_Descr* descr = PyArray_DESCR((PyArrayObject *) obj);
@@ -1597,6 +1600,10 @@ PyObject* Records::Write(PyObject* obj)
 	// the header of an sfile was already updated (and flushed by the seeks in
 	// update_row_count), it must not be ahead of the rows on disk
 	fflush(mFptr);
+
+	// keep the row count of the file, not of the last chunk: an object
+	// opened with r+ can read what it wrote
+	mNrows += nrows_before;
 
 	if (mDebug) debugout("Finished writing");
 	return(ret);
